@@ -54,6 +54,25 @@ impl FileLock {
         Self::nix_as_io_error(result).map(|_| {})
     }
 
+    /// Checks if a write lock could be placed on the file.
+    /// Unlike placing the lock, this doesn't need the file to be open for writing.
+    #[cfg(unix)]
+    #[allow(clippy::unnecessary_cast)]
+    fn fcntl_test_lock(file: &File) -> io::Result<()> {
+        use nix::fcntl::*;
+        use std::os::unix::io::AsRawFd;
+        let mut f = Self::new_flock();
+        f.l_type = libc::F_WRLCK as i16;
+        f.l_whence = libc::SEEK_SET as i16;
+        let result = nix::fcntl::fcntl(file.as_raw_fd(), FcntlArg::F_GETLK(&mut f));
+        Self::nix_as_io_error(result)?;
+        if f.l_type == libc::F_UNLCK as i16 {
+            Ok(())
+        } else {
+            Err(io::Error::from(io::ErrorKind::WouldBlock))
+        }
+    }
+
     /// Locks a file and obtains its metadata.
     /// On error, the error message will contain the path.
     pub fn new(path: &Path) -> io::Result<FileLock> {
@@ -70,13 +89,32 @@ impl FileLock {
             .read(false)
             .write(true)
             .create(false)
-            .open(path_buf)
-            .map_err(|e| {
-                io::Error::new(
-                    error_kind(&e),
-                    format!("Failed to open file {} for write: {}", path.display(), e),
-                )
-            })?;
+            .open(&path_buf);
+
+        // Removing or replacing a file takes the write permission to its directory,
+        // not to the file. A file we cannot write to cannot be locked, but it still
+        // can be checked for the locks held by other processes.
+        #[cfg(unix)]
+        if let Err(e) = &file {
+            if e.kind() == io::ErrorKind::PermissionDenied {
+                if let Ok(file) = File::open(&path_buf) {
+                    return match Self::fcntl_test_lock(&file) {
+                        Ok(()) => Ok(FileLock { file }),
+                        Err(e) => Err(io::Error::new(
+                            error_kind(&e),
+                            format!("Failed to lock file {}: {}", path.display(), e),
+                        )),
+                    };
+                }
+            }
+        }
+
+        let file = file.map_err(|e| {
+            io::Error::new(
+                error_kind(&e),
+                format!("Failed to open file {} for write: {}", path.display(), e),
+            )
+        })?;
 
         #[cfg(unix)]
         if let Err(e) = Self::fcntl_lock(&file) {
